@@ -40,6 +40,9 @@ INVARIANT I_C07_SnapX
 INVARIANT I_C07_SnapFrozen
 INVARIANT I_C07_SnapPairs
 INVARIANT I_C10_Bounded
+INVARIANT I_C13_TargetFirst
+INVARIANT I_C13_ReturnFiltered
+INVARIANT I_C13_SnapFiltered
 INVARIANT I_C18_Count
 INVARIANT I_C18_Provenance
 INVARIANT I_C18_SnapProvenance
